@@ -37,6 +37,12 @@ SINKS_OK = {
     ("attributes", "attributes_to_string"): "join of sanitised parts (checked structurally by S1)",
 }
 
+# number of non-constant mark_safe / SafeString sinks that were reviewed per function
+SINK_COUNT = {
+    ("attributes", "attributes_to_string"): 1, ("dependencies", "set_component_attrs_for_js_and_css"): 1, ("dependencies", "insert_component_dependencies_comment"): 1,
+    ("dependencies", "render_dependencies"): 1, ("perfutil.component", "component_post_render"): 2, ("slots", "_extract_fill_content"): 1, ("slots", "SlotRef.__str__"): 1,
+}
+
 
 def run(chk: Check, proj: Project) -> None:
     chk.explanation = (
@@ -251,6 +257,19 @@ def s1(chk: Check, proj: Project, w) -> None:
             else:
                 chk.violated("S1", key, mm.loc(c), f"new HTML sink `{short(c)}` in {q}: its argument is not a reviewed safe value, so data marked safe here is emitted without escaping")
     chk.floor("S1-sinks", n, 8)
+    # a reviewed function stays reviewed only for the sinks that were looked at: a further mark_safe in it is a new sink
+    per_fn: Dict[Tuple[str, str], List[ast.Call]] = {}
+    for mm, q, fn in proj.all_funcs():
+        for c in calls(fn):
+            if last_attr(c.func) in ("mark_safe", "SafeString", "SafeText") and not (isinstance(parent(c), ast.Attribute) and parent(c).attr == "join") and c.args and not isinstance(c.args[0], ast.Constant):
+                per_fn.setdefault((mm.name.replace("django_components.", ""), q), []).append(c)
+    for key_, lst in sorted(per_fn.items()):
+        exp = SINK_COUNT.get(key_)
+        if exp is not None:
+            mm = proj.mod(key_[0])
+            chk.ob("S1", f"{key_[0]}:{key_[1]}:reviewed-sink-count", mm.loc(lst[-1]), len(lst) <= exp,
+                   f"{len(lst)} reviewed sink(s)" if len(lst) <= exp else
+                   f"`{short(lst[-1])}` is a further HTML sink in {key_[1]} ({len(lst)} where {exp} were reviewed): what it marks safe was not looked at - e.g. `mark_safe(str(value))` for non-str attribute values lets a lazy translation string or an object's __str__ with a quote in it break out of the attribute")
 
 
 def s2(chk: Check, proj: Project, w) -> None:
